@@ -52,7 +52,7 @@ ZOO = {
     4: dict(profiles=["guards"], quick=600000, thorough=7200000, fs=["ALL", "MIN"]),
     5: dict(profiles=["phases", "general"], quick=600000, thorough=7200000, fs=["ALL", "MIN"]),
     6: dict(profiles=["general", "guards", "plans"], quick=720000, thorough=8640000, fs=["ALL", "MIN"], probes=["const_plan"]),
-    7: dict(profiles=["general", "guards", "plans"], quick=720000, thorough=8640000, fs=["ALL", "MIN"], cfgs=[1, 2, 3, 5, 6, 7, 8, 9, 12, 14, 16, 17, 18, 19], san=20000),
+    7: dict(profiles=["general", "guards", "plans"], quick=720000, thorough=8640000, fs=["ALL", "MIN"], cfgs=[1, 2, 3, 5, 6, 7, 8, 9, 12, 14, 16, 17, 18, 19], san=20000, probes=["payloadu8"]),
     8: dict(profiles=["plans"], quick=900000, thorough=10800000, fs=["ALL", ["PLANS"]]),
     9: dict(profiles=["plans"], quick=600000, thorough=7200000, cfgs=[0, 1, 3, 4, 6, 7, 8, 9, 11, 13, 16, 18], san=20000, fs=["ALL", ["PLANS"]]),
     10: dict(profiles=["plans"], quick=600000, thorough=7200000, probes=["plan_firstlast"], fs=["ALL", ["PLANS"]]),
@@ -115,7 +115,8 @@ class Result:
             cov["samples"] = ["(no sample recorded)"]
         vc.write_evidence(self.prop, self.tier, self.seed, cov, time.time() - self.t0, len(self.violations), assumptions or ASSUMPTIONS)
         for k in self.known:
-            print("KNOWN-FINDING: property=%s %s" % (self.prop, k))
+            text = " ".join(tok for tok in k[len("finding:"):].split() if not tok.startswith("property=") and not tok.startswith("match=")) if k.startswith("finding:") else k
+            print("KNOWN-FINDING: property=%s %s" % (self.prop, text))
         for replay, msg in self.violations[:5]:
             print("VIOLATION property=%s replay=%s" % (self.prop, replay))
             print("  " + msg.strip().replace("\n", "\n  ")[:1500])
